@@ -194,7 +194,16 @@ def gen_case(rng, junk=False):
         fb = rng.choice(fbs)
         sup += [derived_suppress(rng, fb) for _ in range(rng.choice([2, 2, 3]))]
         rng.shuffle(sup)
-    return {'feedbacks': fbs, 'suppress': sup, 'other_report': rng.random() < 0.2}
+    case = {'feedbacks': fbs, 'suppress': sup, 'other_report': rng.random() < 0.2}
+    if len(fbs) >= 2 and rng.random() < 0.12:
+        # the report draws from one pool and a per-pool override re-categorises / re-prioritises the feedback: the ranking is by the
+        # values AFTER the override
+        case['pool'] = {'name': 'A', 'fields': rng.choice([{'category': rng.choice(CATS)}, {'priority': rng.choice(['high', 'low', 'syntax', 'instructor'])},
+                                                            {'category': rng.choice(CATS), 'priority': rng.choice(['high', 'low'])}])}
+    if fbs and rng.random() < 0.3:
+        # a suppression added AFTER the report was resolved; the next resolve must take it into account
+        case['late_suppress'] = derived_suppress(rng, rng.choice(fbs))
+    return case
 
 
 CORPUS = [
@@ -311,6 +320,14 @@ def score_value(txt):
     return -v if m.group(1) == '-' else v
 
 
+def apply_pools(cases, res):
+    """the attributes were snapshotted after construction; what takes part in the resolution is what the per-pool override made of them"""
+    for case, out in zip(cases, res['cases']):
+        if case.get('pool'):
+            for x in out['active'] + out['ignored']:
+                x.update(case['pool']['fields'])
+
+
 def flags_honoured(case, snaps, flags):
     for x in snaps:
         if 'spec' in x and 'class_muted' in x:
@@ -380,6 +397,10 @@ def oracle(pid, case, out, _group=False):
             if not s['used_title_ok']:
                 return ('wrong-text', 'title/message/label/category are not those of the delivered feedback')
     if pid == 'C02':
+        # "shown" is what the call asked for: an explicit muted=False beats a class that is muted by default
+        v = flags_honoured(case, snaps, ('muted',))
+        if v:
+            return v
         want = all(x['correct'] for x in vis)
         if bool(s['correct']) != want or bool(s['json_correct']) != want or bool(s['success']) != want:
             return ('correct-mismatch', 'correct=%s but shown feedback correct flags are %s' % (s['correct'], [(x['id'], x['correct']) for x in vis]))
@@ -431,6 +452,7 @@ def correspondence(ctx):
             for val in ['5', '0.25', '50%', '0', '.5', '1.', '12.5%', '1.2.3', '.', '', 'x']:
                 score_cases.append([bang + op + val, [rng.randrange(-300, 300), 100]])
     res = vlib.run_impl('c01_impl.py', {'cases': cases, 'keys': keys, 'scores': score_cases})
+    apply_pools(cases, res)
 
     # (1) float keys order like tenths, (2) key model vs by_priority
     items = []
@@ -478,6 +500,17 @@ def correspondence(ctx):
                                                          'feedback_lists_after': out.get('n_feedback_after'),
                                                          'why': 'resolving the same report a second time gives a different %s: %s then %s'
                                                                 % (', '.join(diff), [out['simple'].get(k) for k in diff], [again.get(k) for k in diff])})
+        late = out.get('simple_late')
+        if late is not None and 'raise' not in out['simple']:
+            case2 = dict(case, suppress=case['suppress'] + [case['late_suppress']])
+            out2 = dict(out, simple=late, sectional=None)
+            v = oracle(ctx.pid, case2, out2)
+            if v:
+                ctx.violation('after-late-suppression:' + v[0],
+                              {'case': case2, 'observed': late, 'first_resolve': out['simple'], 'snapshots': snaps,
+                               'why': 'the report was resolved, then suppress(%s) was called, then it was resolved again: %s'
+                                      % (case['late_suppress'], v[1])})
+            ctx.count('resolved-again-after-a-late-suppression')
         # skip float-rounding-sensitive totals in the model comparison
         if 'raise' not in out['simple']:
             tot = sum((Fraction(0),) )
@@ -580,6 +613,7 @@ def search(ctx, n=6000):
     for rnd in range(4):
         cases = [gen_case(rng) for _ in range(n // 4)]
         res = vlib.run_impl('c01_impl.py', {'cases': cases, 'keys': [], 'scores': []})
+        apply_pools(cases, res)
         for case, out in zip(cases, res['cases']):
             v = oracle(ctx.pid, case, out)
             if v:
